@@ -65,7 +65,7 @@ PLAN = dict(
           "variants of the six names must parse and print canonically, 16 non-names must be rejected. "
           "Non-trivial = non-empty input (reader groups: more than one byte; names: a non-canonical "
           "spelling or a rejected non-name); distinct = distinct (group, algorithm, entry, input bytes) "
-          "by 64-bit fingerprint. Later additions: hard reader errors of eight different kinds. Round 7: lines of 256 KiB - 4 MiB that are kept, behind and between short kept lines. Round 8: a long line with a late marker followed directly by short marker lines. Round 9: byte-level near misses of the six names (single-bit flips of every byte in canonical, lower and upper case that are not case changes; one character replaced by a multi-byte one and the name cut back to its own length in bytes) must be rejected."),
+          "by 64-bit fingerprint. Later additions: hard reader errors of eight different kinds. Round 7: lines of 256 KiB - 4 MiB that are kept, behind and between short kept lines. Round 8: a long line with a late marker followed directly by short marker lines. Round 9: byte-level near misses of the six names (single-bit flips of every byte in canonical, lower and upper case that are not case changes; one character replaced by a multi-byte one and the name cut back to its own length in bytes) must be rejected. Round 10: the step budget is proportional to the input length."),
     exhaustive={"quick": "all input lengths 0-130 (x >= 3 contents); all 100 ASCII case variants of the six names",
                 "thorough": "all input lengths 0-130 (x 23 contents); all 100 ASCII case variants of the six names"},
     assumptions=[
